@@ -214,6 +214,16 @@ func C08(ctx *core.Ctx) int {
 		progs = append(progs, dsl.P2()...)
 		progs = append(progs, dsl.P4()...)
 	}
+	// the same programs with their MetaData block written after the packets that use it: every equivalence must
+	// hold wherever the blocks stand
+	for _, p := range append([]*dsl.Program(nil), progs...) {
+		if len(p.Meta) > 0 && !p.MetaLast {
+			q := p.Clone()
+			q.MetaLast = true
+			q.Name = p.Name + " (MetaData block last)"
+			progs = append(progs, q)
+		}
+	}
 	maxSubset := 2
 	if ctx.Thorough() {
 		maxSubset = 3
@@ -238,6 +248,30 @@ func C08(ctx *core.Ctx) int {
 		base, diags, err := compileAll(ctx, baseText)
 		if err != nil || diags != nil {
 			atomic.AddInt64(&unobs, 1)
+			// not accepted as written (C12's subject) - but if the same program with its MetaData-typed fields
+			// spelled out IS accepted, two texts that mean the same do not produce the same outputs
+			q := p.Clone()
+			n := 0
+			for _, s := range rewriteSites(p) {
+				if s.kind == "MetaData-typed field <-> the inlined type" {
+					s.apply(q)
+					n++
+				}
+			}
+			if n > 0 {
+				atomic.AddInt64(&evals, 1)
+				if _, d2, err2 := compileAll(ctx, q.Text()); err2 == nil && d2 == nil {
+					why := ""
+					if err != nil {
+						why = errClass(err)
+					} else {
+						why = normDiag(diags[0])
+					}
+					ctx.Report("MetaData-typed field <-> the inlined type|only the inlined spelling is accepted|"+why,
+						fmt.Sprintf("program %s: rejected as written (%s), accepted with its MetaData-typed fields spelled out\n--- original\n%s\n--- respelled\n%s", p.Name, why, core.Trunc(baseText, 500), core.Trunc(q.Text(), 500)),
+						map[string]any{"name": p.Name, "text": q.Text(), "original": baseText})
+				}
+			}
 			return
 		}
 		for _, l := range api.Langs {
